@@ -37,6 +37,9 @@ FLOORS = {'quick': {'conclusive': 300, 'distinct_nontrivial': 100,
 CASE_TIMEOUT = {'quick': 120, 'thorough': 300}
 
 
+# appended to RULE in the evidence (vlib/runner.py)
+RULE_ADDENDUM = 'Added in round 5: 20 % of the plain expressions are extended by a throw-away larger expression (foreign or model variable) before they are registered.'
+
 def n_cases(tier):
     return 640 if tier == 'quick' else 50000
 
